@@ -811,6 +811,13 @@ fn gen_cmds(r: &mut Rng, report: bool) -> String {
         let p = if r.chance(5, 6) { *r.pick(&progs[..12]) } else { *r.pick(&progs) };
         let k = if report { r.below(6) } else { r.below(3) };
         let nf = r.below(4) as usize;
+        // now and then an update of more names than the message's 8-bit count can hold (and of
+        // just as many as it can): every name is the window or the rate, so nothing but the count decides
+        if k == 2 && r.chance(1, 25) {
+            let many = 253 + r.below(50) as usize;
+            let fs = (0..many).map(|i| format!("{}={:x}", if (i + many) % 3 == 0 { "Rate" } else { "Cwnd" }, r.below(1000))).collect::<Vec<_>>().join("&");
+            return format!("UF:{}:{}", if p == "dup" { "alpha" } else { p }, fs);
+        }
         match k {
             0 | 1 => format!("SP:{}:{}", p, if r.chance(2, 3) { gen_ctl_fields(r, p, nf) } else { gen_fields(r, nf) }),
             2 => format!("UF:{}:{}", if p == "dup" { "alpha" } else { p }, if r.chance(2, 3) { gen_ctl_fields(r, p, nf) } else { gen_fields(r, nf) }),
